@@ -75,7 +75,11 @@ Definition fresh (m : nat) (p : nat -> nat) (cuts : nat -> list entry) (pb : opt
 
 Definition init (m : nat) : state := fresh m (fun _ => 0) (fun _ => []) None.
 
-(* restart: the recorded cuts of all old operators, restricted to the keys the new operator owns *)
+(* restart: the recorded cuts of all old operators, restricted to the keys the new operator owns.
+   ONE published checkpoint is read, and BOTH the operators' state and the splits' positions come from it -- this is what
+   jobs.Job.start does (`ckpt := CurrentCheckpoint()` once, then Assembly.Deploy(ckpt) and splitter.Start(ckpt's source
+   checkpoint)). Reading the store twice (state from one publication, positions from a later one that lands while the
+   assembly is deployed) is NOT this model; the correspondence check sees it as code 16. *)
 Definition all_cut (c : published) : list entry := flat_map (c_cut c) (seq 0 (c_n c)).
 Definition restart (m : nat) (pb : option published) : state :=
   match pb with
